@@ -1,13 +1,17 @@
 #!/bin/bash
 # usage: mut.sh <ID> <file-in-repo> <old text> <new text> [tier]
 #    or: mut.sh <ID> --patch <patch.diff> [tier]
+#    or: mut.sh <ID> --rpatch <fix.diff> [tier]   (reverse-applies a fix: re-introduces the defect)
 # Applies a mutation to a scratch worktree of /repo (never to /repo itself), runs the
 # check against it (VERIF_REPO) and removes the worktree. Safe to run in parallel.
 ID=$1
 W=/var/tmp/verif-scratch-$$-$RANDOM
 git -C /repo worktree add -q --detach "$W" HEAD || exit 2
 trap 'git -C /repo worktree remove --force "$W" >/dev/null 2>&1; rm -rf "$W" /verif/.build/*-alt-*$(basename $W)*' EXIT
-if [ "$2" = "--patch" ]; then
+if [ "$2" = "--rpatch" ]; then
+  git -C "$W" apply -R "$3" || { echo "reverse patch does not apply"; exit 2; }
+  TIER=${4:-quick}
+elif [ "$2" = "--patch" ]; then
   git -C "$W" apply "$3" || { echo "patch does not apply"; exit 2; }
   TIER=${4:-quick}
 else
